@@ -142,8 +142,11 @@ def run(ctx):
     # (directories given to RunFiles hold files only: a directory inside a searched directory is read as a file and panics - not part of this property)
     spellings = [["a.txt"], ["./a.txt"], [".//a.txt"], ["d1//b.txt"], ["d1/./b.txt"], ["sub/../d1/b.txt"], ["d1/"], ["d1"], ["./d1/"], ["d1//"], ["sub/deep/"], ["sub/deep"], ["./sub/./deep/"],
                  ["sub//deep"], ['q"uote.txt', "x\\y.txt", "é.txt"], ["a.txt", "./a.txt", "d1/../a.txt"]]
+    spellings += [["a.txt", "d1/b.txt"], ["d1/b.txt", "a.txt"], ["a.txt", "d1/b.txt", "a.txt"], ["d1/", "a.txt", "d1/b.txt"]]
     fcases = [{"op": "jsonfiles", "src_hex": vh.hexs(p), "files": files, "search": sp}
-              for p in ("find all 'a'", "replace all 'X' with '-'", "find all 'zzz'", "find all any = v") for sp in spellings]
+              for p in ("find all 'a'", "replace all 'X' with '-'", "find all 'zzz'", "find all any = v",
+                        # several commands: the result list (and so the document) is ordered command by command, within a command file by file
+                        "find all 'a' find all 'X'", "replace all 'X' with '-' find all 'a' find all 'b'") for sp in spellings]
     fres = vh.run_cases(fcases, shards=4)
     fev = 0
     for c, r in zip(fcases, fres):
